@@ -14,10 +14,11 @@ package types
 //@ ghost func metaKeyB(a common.Address) bytes = bcat(b1(2), addrBytes(a))
 
 // Package-level key prefixes hold the values their initialisers give them (T4: package-level variables are not
-// modified after init; the initialisers are the literals in keys.go).
+// modified after init; the initialisers are the one-byte literals in keys.go, so len == cap == 1: appending to a
+// prefix always allocates a new backing array and never writes into the shared one).
 //@ import big "math/big"
 //@ axiom cpc_max_uint256: BigMaxUint256 != nil && bigval[BigMaxUint256] == pow2(256) - 1
-//@ axiom cpc_key_prefixes: len(KeyPrefixParams) == 1 && KeyPrefixParams[0] == 1 && len(KeyPrefixCustomPrecompiledContractMeta) == 1 && KeyPrefixCustomPrecompiledContractMeta[0] == 2 && len(KeyPrefixErc20CpcDenomToAddress) == 1 && KeyPrefixErc20CpcDenomToAddress[0] == 3 && len(KeyPrefixErc20CpcAllowance) == 1 && KeyPrefixErc20CpcAllowance[0] == 4
+//@ axiom cpc_key_prefixes: len(KeyPrefixParams) == 1 && cap(KeyPrefixParams) == 1 && KeyPrefixParams[0] == 1 && len(KeyPrefixCustomPrecompiledContractMeta) == 1 && cap(KeyPrefixCustomPrecompiledContractMeta) == 1 && KeyPrefixCustomPrecompiledContractMeta[0] == 2 && len(KeyPrefixErc20CpcDenomToAddress) == 1 && cap(KeyPrefixErc20CpcDenomToAddress) == 1 && KeyPrefixErc20CpcDenomToAddress[0] == 3 && len(KeyPrefixErc20CpcAllowance) == 1 && cap(KeyPrefixErc20CpcAllowance) == 1 && KeyPrefixErc20CpcAllowance[0] == 4
 
 //@ func Erc20CustomPrecompiledContractAllowanceKey(owner, spender common.Address) []byte
 //@   modifies nothing
@@ -27,4 +28,20 @@ package types
 //@ func CustomPrecompiledContractMetaKey(contractAddr common.Address) []byte
 //@   modifies nothing
 //@   ensures[C17.meta_key_layout] bytes(result) == metaKeyB(contractAddr) && len(result) == 21
+//@   panics never
+
+// params.go — a valid Params record has protocol version 1 (the only one defined)
+//@ func (m Params) Validate() (err error)
+//@   modifies nothing
+//@   ensures[C17.params_validate_version] err == nil ==> (1 <= m.ProtocolVersion && m.ProtocolVersion <= 1)
+
+// precompiles.go — a valid registry record: a 20-byte non-zero address, a known type, a name and typed metadata
+//@ func (m CustomPrecompiledContractMeta) Validate(cpcV ProtocolCpc) (err error)
+//@   modifies nothing
+//@   ensures[C17.meta_validate] err == nil ==> (len(m.Address) == 20 && bytesAddr(bytes(m.Address)) != zero(type(common.Address)) && 1 <= m.CustomPrecompiledType && m.CustomPrecompiledType <= 3 && m.Name != "" && m.TypedMeta != "" && cpcV == 1)
+//@   ensures[C17.meta_validate_typed] (err == nil && m.CustomPrecompiledType == 1) ==> (jsonErc20Ok(strBytes(m.TypedMeta)) && jsonErc20MinDenom(strBytes(m.TypedMeta)) != "" && jsonErc20Symbol(strBytes(m.TypedMeta)) != "" && jsonErc20Decimals(strBytes(m.TypedMeta)) <= 18)
+
+//@ func (m Erc20CustomPrecompiledContractMeta) Validate(cpcV ProtocolCpc) (err error)
+//@   modifies nothing
+//@   ensures[C17.erc20_meta_validate] (err == nil) == (m.Symbol != "" && m.Decimals <= 18 && m.MinDenom != "" && m.Symbol != m.MinDenom)
 //@   panics never
